@@ -373,3 +373,46 @@ func VerifH_C16_map_key_conversion() {
 	}
 	verifAssert(verifCanonicalInt(got) == s, "an accepted property name is the canonical decimal numeral of the key it is converted to")
 }
+
+// C16-H5: a Go function bridged into the runtime, called from a script with
+// 0..3 arguments that are any doubles: the call either fails with a RangeError
+// (arity, range) / TypeError visible to the script and the Go function is NOT
+// entered, or the Go function receives exactly the numbers the script passed
+// and its result comes back intact.
+func VerifH_C16_go_function_call() {
+	vm := New()
+	var gotA int8
+	var gotB uint16
+	calls := 0
+	vm.Set("g", func(a int8, b uint16) float64 {
+		calls++
+		gotA, gotB = a, b
+		return float64(a)*65536 + float64(b)
+	})
+	x, y := verifNondetFloat64(), verifNondetFloat64()
+	vm.Set("x", x)
+	vm.Set("y", y)
+	nargs := verifChoose(4)
+	call := []string{"g()", "g(x)", "g(x, y)", "g(x, y, 1)"}[nargs]
+	v, ok := verifRun(vm, "var r = 'ok', v; try { v = "+call+" } catch (e) { r = e instanceof RangeError ? 'RangeError' : e instanceof TypeError ? 'TypeError' : 'other' } r")
+	verifCover("reached")
+	verifAssert(ok, "the script completes: a refused call is an exception it can catch, not a Go panic")
+	if !ok {
+		return
+	}
+	res := v.String()
+	fits := x == math.Trunc(x) && x >= -128 && x <= 127 && y == math.Trunc(y) && y >= 0 && y <= 65535
+	if nargs != 2 {
+		verifAssert(res == "RangeError" && calls == 0, "an arity mismatch is reported and the Go function is not entered")
+		return
+	}
+	if !fits {
+		verifAssert((res == "RangeError" || res == "TypeError") && calls == 0, "a number that does not fit the parameter type is refused loudly; the Go function is not entered")
+		return
+	}
+	verifAssert(res == "ok" && calls == 1, "fitting arguments: the Go function is entered once")
+	verifAssert(float64(gotA) == x && float64(gotB) == y, "each argument arrives as exactly the Go value it denotes")
+	r, _ := vm.Get("v")
+	rf, _ := r.ToFloat()
+	verifAssert(rf == float64(gotA)*65536+float64(gotB), "the return value comes back intact")
+}
